@@ -6,6 +6,7 @@
   statement over `Buf` is `C12.copy_once_from_spec`.)
 -/
 import FBV.Props.C14
+import FBV.Props.C12
 namespace FBV.C14
 open FBV
 
@@ -137,6 +138,45 @@ theorem cof_drive_eq_blocking :
           simp [cofDrive, cofPoll, h0, ARd.read, hacts, isPendingAct]
         | err e =>
           simp [cofDrive, cofPoll, h0, ARd.read, hacts, isPendingAct]
+
+/-! ### the concrete `copy_once_from` (over `Buf`, the model the T1 tie runs) refines `cofPoll` -/
+
+theorem abs_free (b : Buf) (h : b.WInv) : b.abs.free = b.mem.length - b.wi := by
+  have hl := Buf.readable_length b h
+  obtain ⟨h1, h2, _⟩ := h
+  simp only [Buf.abs, AB.free, hl]; omega
+
+/-- a reader that delivers (at most) `bytes`: the concrete call's abstraction is the abstract poll's result — same
+    count, same error, same unread bytes, same capacity and read offset — in both overflow-check settings -/
+theorem cof_refines (oc : Bool) (b : Buf) (h : b.WInv) (bytes : List Byte) (scr : Bool) :
+    (step oc b (.copyOnce (.data bytes scr))).1.abs = (cofPoll b.abs ⟨bytes, [], []⟩).1 ∧
+    (match (cofPoll b.abs ⟨bytes, [], []⟩).2.2 with
+     | .ok n => (step oc b (.copyOnce (.data bytes scr))).2.cls = .ok ∧ (step oc b (.copyOnce (.data bytes scr))).2.nums = [n]
+     | .invalid => (step oc b (.copyOnce (.data bytes scr))).2.cls = .err EK_InvalidData
+     | _ => False) := by
+  have hfree := abs_free b h
+  have hspec := C12.copy_once_from_spec oc b (.data bytes scr) h
+  by_cases h0 : b.mem.length - b.wi = 0
+  · have hs := hspec.1 h0
+    rw [hs]
+    simp [cofPoll, hfree, h0]
+  · obtain ⟨hout, hrd⟩ := hspec.2 h0
+    rw [step_copyOnce oc b _ h] at hout hrd ⊢
+    simp only [h0, if_false] at hout hrd ⊢
+    have hcl := cofDest_length b bytes scr h
+    have hml := put_mem_length b (cofDest b bytes scr) h (by omega)
+    have hc : cofPoll b.abs ⟨bytes, [], []⟩ =
+        (b.abs.append (bytes.take (b.mem.length - b.wi)), ⟨bytes.drop (b.mem.length - b.wi), [], [b.mem.length - b.wi]⟩,
+          .ok (min (b.mem.length - b.wi) bytes.length)) := by
+      simp [cofPoll, hfree, h0, ARd.read]
+    rw [hc]
+    refine ⟨?_, by simp [Nat.min_comm]⟩
+    have hri : ((b.put (cofDest b bytes scr)).commit (min bytes.length (b.mem.length - b.wi))).ri = b.ri := rfl
+    have hmem : ((b.put (cofDest b bytes scr)).commit (min bytes.length (b.mem.length - b.wi))).mem.length = b.mem.length := by
+      simpa [Buf.commit] using hml
+    show ({ size := _, ri := _, q := _ } : AB) = _
+    rw [hrd, hri, hmem]
+    simp [Buf.abs, AB.append, List.take_take, Nat.min_comm]
 
 /-- non-vacuity: two Pendings, then 3 of the 4 offered bytes arrive -/
 example : (cofDrive 5 ⟨8, 2, [0x61, 0x62]⟩ ⟨[1, 2, 3, 4, 5], [.pending, .pending, .chunk 2], []⟩) =
